@@ -254,6 +254,26 @@ def binding_eq(sh, spec, A, B):
 
 
 # ------------------------------------------------------------------ symbolic process state (C17)
+def sym_order(ctx, items):
+    """an iteration order chosen by the solver: every permutation for up to 4 elements; for larger sets the family
+    {sorted, reversed, rotated by half, odd positions first} (enough to expose a dependence on the order)"""
+    items = list(items)
+    if len(items) <= 4:
+        out = []
+        while items:
+            out.append(items.pop(ctx.choice(len(items), 'ord')))
+        return out
+    k = ctx.choice(4, 'ordfam')
+    if k == 0:
+        return items
+    if k == 1:
+        return items[::-1]
+    if k == 2:
+        h = len(items) // 2
+        return items[h:] + items[:h]
+    return items[1::2] + items[0::2]
+
+
 class SymSet(set):
     """set whose iteration order is a fresh symbolic permutation at every iteration"""
 
@@ -262,10 +282,7 @@ class SymSet(set):
         ctx = Ctx.cur
         if ctx is None or len(items) < 2:
             return iter(items)
-        out = []
-        while items:
-            out.append(items.pop(ctx.choice(len(items), 'ord')))
-        return iter(out)
+        return iter(sym_order(ctx, items))
 
     def _w(name):
         def m(self, *a):
@@ -294,6 +311,17 @@ class SymSet(set):
             set.discard(self, x)
             return x
         raise KeyError('pop from an empty set')
+
+
+class SymFrozenSet(frozenset):
+    """frozenset whose iteration order is a fresh symbolic permutation at every iteration"""
+
+    def __iter__(self):
+        items = sorted(frozenset.__iter__(self), key=lambda x: (str(type(x)), str(x)))
+        ctx = Ctx.cur
+        if ctx is None or len(items) < 2 or getattr(ctx, 'concrete', lambda: False)():
+            return iter(items)
+        return iter(sym_order(ctx, items))
 
 
 class ModuleState:
@@ -364,16 +392,27 @@ class Keys:
         if 'C17' in self.cfg['props']:
             import klepto._inspect as I
             import klepto.keymaps as KM
-            saved = [(m, m.__dict__.get('set', _MISSING)) for m in (I, KM)]
-            I.set = SymSet
-            KM.set = SymSet
+            import klepto._archives as AR
+            saved = [(m, n, m.__dict__.get(n, _MISSING)) for m in (I, KM, AR) for n in ('set', 'frozenset')]
+            for m in (I, KM, AR):
+                m.set = SymSet
+                m.frozenset = SymFrozenSet
+            # sets that were built when the modules were imported (module-level constants) iterate symbolically too
+            consts = []
+            for m in (I, KM, AR):
+                for n, v in list(vars(m).items()):
+                    if type(v) is set or type(v) is frozenset:
+                        consts.append((m, n, v))
+                        setattr(m, n, SymSet(v) if type(v) is set else SymFrozenSet(v))
 
             def undo2():
-                for m, v in saved:
+                for m, n, v in consts:
+                    setattr(m, n, v)
+                for m, n, v in saved:
                     if v is _MISSING:
-                        m.__dict__.pop('set', None)
+                        m.__dict__.pop(n, None)
                     else:
-                        m.set = v
+                        setattr(m, n, v)
         return lambda: (undo2(), undo1())
 
     def signature(self, label, info):
@@ -401,7 +440,7 @@ class Keys:
         outs = {}
         if self.cfg.get('scenario') in ('session', 'fname'):
             # session 1 (has computed another call before) and session 2 (fresh) are two real interpreters with different hash seeds
-            for mode, seed in (('primed', 1), ('fresh', 2), ('fresh', 3)):
+            for mode, seed in (('primed', 1),) + tuple(('fresh', sd) for sd in range(2, 10)):
                 code2 = code.replace('h.cfg["print_key"] = True', 'h.cfg["print_key"] = %r' % mode)
                 p = subprocess.run([sys.executable, '-c', code2], input=json.dumps({'cfg': self.cfg, 'assignment': assignment}),
                                    capture_output=True, text=True, env=dict(os.environ, PYTHONHASHSEED=str(seed)), timeout=120)
